@@ -153,6 +153,9 @@ def unsafe_inventory(under_contract):
     return {"unsafe_blocks_total": total, "unsafe_blocks_in_functions_under_contract": covered, "unsafe_blocks_not_covered": open_sites}
 
 
+KANI_CONTRACT_FNS = {("src/gen/prng/xoshiro256_star_star.rs", "next_f64")}
+
+
 def function_inventory():
     """every fn definition with a body in /repo/src outside test code (functions written inside macro_rules bodies are not
     parsed and not listed) against the functions under contract in ANY registered unit, matched by file and source line
@@ -182,7 +185,7 @@ def function_inventory():
         shutil.rmtree(tmp, ignore_errors=True)
     if p.returncode != 0:
         return {"error": p.stderr[-500:]}
-    total, covered, open_fns = 0, 0, []
+    total, covered, open_fns, kani = 0, 0, [], []
     for item in json.loads(p.stdout):
         rel = item["id"]
         for row in item.get("inventory", []):
@@ -196,9 +199,13 @@ def function_inventory():
             ln = int(row["line"])
             if any(f == rel and a <= ln <= b for (f, a, b) in spans):
                 covered += 1
+            elif (rel, fn.split("::")[-1]) in KANI_CONTRACT_FNS:
+                covered += 1
+                kani.append("%s:%s %s" % (rel, row["line"], fn))
             else:
                 open_fns.append("%s:%s %s" % (rel, row["line"], fn))
-    return {"functions_total": total, "functions_under_contract": covered, "functions_not_under_contract": open_fns}
+    return {"functions_total": total, "functions_under_contract": covered, "of_which_by_kani_function_contract": kani,
+            "functions_not_under_contract": open_fns}
 
 
 STANDIN_PROPS = {"C01", "C02", "C03", "C04", "C05", "C06", "C07", "C08", "C09", "C10", "C11", "C12", "C14", "C13", "C15", "C16", "C17", "C18", "C19", "C20"}
